@@ -65,7 +65,9 @@ inline int run(int argc, char** argv) {
         else if (op == "drain" || op == "drain1") ss >> gv >> pl;
         else if (op == "copy" || op == "assign" || op == "move" || op == "moveassign" || op == "saveload") ss >> j >> e;
         set_gv(gv); parse_plan(pl, evidx); RT::cbn() = 0; RT::nothrow() = (op == "start" || op == "stop");
-        out << "{\"k\":\"call\",\"op\":\"" << op << "\",\"i\":" << i << ",\"e\":\"" << e << "\",\"p\":" << p << ",\"j\":" << j << "}\n";
+        out << "{\"k\":\"call\",\"op\":\"" << op << "\",\"i\":" << i << ",\"e\":\"" << e << "\",\"p\":" << p << ",\"j\":" << j << ",\"gv\":[";
+        for (size_t k = 0; gv != "-" && k < gv.size(); k++) out << (k ? "," : "") << (gv[k] == '1' ? "true" : "false");
+        out << "]}\n";
         long rv = 0; bool escaped = false;
         try {
             if (op == "start") { inst(i).start(); }
